@@ -804,6 +804,9 @@ class Emitter:
             if res: w('  %s = (%s)%s;' % (res, s.ctype(I.ty), call))
             else: w('  %s;' % call)
             done = True
+        newfail = name in ('_Znwm', '_Znam') and 'vf_new_fail_at' in s.m.funcs
+        if newfail:
+            w('  if (rt_new_fails()) { rt_throw_bad_alloc(); %s } else {' % (('%s = 0;' % res) if res else ''))
         if not done and name in ('_Znwm', '_Znam') and I.res and s.alloc_types.get(I.res) is not None:
             ety = s.alloc_types[I.res]
             esz = s.sizeof_align(ety)[0]
@@ -836,6 +839,9 @@ class Emitter:
             if res: w('  %s = %s;' % (res, call))
             else: w('  %s;' % call)
             if res and name and name.startswith('nondet_'): w('  RT_ND(%s);' % res)
+        if newfail:
+            w('  }')
+            if I.op != 'invoke': w('  if (rt_exc_pending) return%s;' % retzero)
         if name is not None and (name == COND_WAIT or name in s.may_park):
             # the modelled thread parked in condition_variable::wait: leave every frame up to rt_thread_run without running
             # landing pads (the wait released the mutex; std::unique_lock's destructor must not run)
